@@ -13,7 +13,8 @@
          http2RetryCollector (rc_ functions).  A nil dereference in Go is the outcome None.
      L1  tracingHTTP2Conn.Read / Write / Close (conn_op): what the caller sees.
 
-   The model is of the REPAIRED code (KNOWN_FINDINGS.txt: CONTINUATION, two nil dereferences).
+   The model is of the REPAIRED code (KNOWN_FINDINGS.txt: CONTINUATION, two nil dereferences, reset before
+   response headers).
    No proofs here. *)
 From V Require Export Base.
 Open Scope N_scope.
@@ -511,6 +512,15 @@ Definition close_stream (sid : N) (s : stream) (isreq : bool) (e : terr)
       | (b, done) => Some (None, completes sid done)
       end
     | _, _ => None
+    end
+  else if negb (is_nil_err e) then
+    (* reset before any response headers (repaired code): the operation ends with this error *)
+    match dt_flush (s_req s) with
+    | None => None
+    | Some (rq, evs1) =>
+      match b_adds (s_b s) (evs1 ++ [BRespEnd e]) with
+      | (b, done) => Some (None, completes sid done)
+      end
     end
   else Some (None, []).
 
